@@ -28,6 +28,18 @@ CLAIMED = {
  "C18": ("DESIGN.md §4 C18",
          "Deductive proof, for all inputs, of function contracts on the real code: CompareAscending = sign of chronological order (+ strict-total-order lemma); the four cut CompareTo methods and compareValueCuts against the cut order; PeriodsIntersect/PeriodsConnected = share an instant / closures share an instant (+ soundness/completeness/symmetry lemmas); segment ActiveAt, MagnitudeAt, Duration, Max, MaxMagnitude, MaxAfter, Cut, Shift against the step-function reading (prefix sums cum), with loop invariants, termination, no-panic obligations and a checked frame (no argument is modified).",
          "Assumes valid timestamps/durations and total segment length <= 2^62 ns as preconditions; float magnitudes are {NaN,+-Inf,finite real} without rounding. Shift is specified structurally per case (the translation law follows by a stated, not machine-checked, induction over prefix sums). Sum/calcCuts and the modepb wrappers are not yet under contract in this revision."),
+ "C04": ("DESIGN.md §4 C04",
+         "Deductive proof on the real forwarding goroutines of Value.Pull and Collection.Pull (closures Pull$1, channels as ghost sequences, every send is an obligation): unless updates-only, the first message of a Value stream is the value at subscription with SeedValue and LastSeedValue set; a Collection stream starts with one ADD per snapshot item in ascending id order, each carrying the stored change time and the projection of the stored body, all flagged seed and exactly the final one flagged last-seed; every later message is the include verdict of the raw event, projected through the read mask, never flagged seed, and is dropped when the configured equivalence relates old and new; the output channel is closed when the goroutine ends.",
+         "Narrow: per-subscriber forwarding only. That the snapshot and the subscription are taken atomically (onUpdate under the read lock) is covered by C11's lock discipline plus the Bus contract, not re-proved here; replaying the stream over the seed to rebuild Get (the edit-script fold) composes these per-message clauses with C09's fold lemma and is stated, not machine-checked. Assumed: events arriving on the bus are non-seed *ValueChange/*CollectionChange values (a requires of the goroutine, discharged by Send's call sites when those are under contract), the read mask was validated, ctx.Done()/select are nondeterministic."),
+ "C05": ("DESIGN.md §4 C05",
+         "Deductive proof on the real masks.FieldUpdater code and the resource write path that uses it: Validate accepts exactly the masks inside the writable set (nil writable = everything) and rejects invalid paths with an error rather than a panic; Merge with a nil mask replaces the destination's content by the source's, with an empty-but-non-nil mask changes nothing, and with paths copies exactly the named fields (abstract message contents: merge/filter/union are uninterpreted functions related by the library contracts); WriteRequest.fieldUpdater intersects the request mask with the resource's writable fields; Value.set validates before any interceptor or store runs, so a rejected update leaves the stored value and the stream untouched.",
+         "Message contents are abstract (ghost$msg): what fmutils.Filter/Prune, proto.Merge and fieldmaskpb.Union/Intersect do is an assumed library contract, so 'exactly the named fields' is proved relative to those. Collection.Update's use of the same writer is covered once Collection.Update is under contract."),
+ "C06": ("DESIGN.md §4 C06",
+         "Deductive proof on the real masks.ResponseFilter code and every read path that applies it (Value.get, ValueChange.filter, CollectionChange.filter, the two Pull goroutines): FilterClone never writes its argument, returns the argument itself only when no mask is set, otherwise a deep-fresh clone whose content is the projection; Filter (in place) is only applied to clones; a mask with no paths is the identity projection; the paths-valid precondition of fmutils.Filter is an obligation at each call, discharged from ResponseFilter.Validate/fieldUpdater validation where the message type can make the reflection walk panic.",
+         "Projection is an uninterpreted function of (content, mask) constrained by the assumed fmutils contract; idempotence and path-by-path equality with the unmasked read are library facts, not proved. Read masks that nothing validates (generic message types reached through Collection.List with a caller-supplied mask) are reported by the paths-valid obligation where they occur."),
+ "C20": ("DESIGN.md §4 C20",
+         "Deductive proof on the real trait-model code: parentpb.traitUnion/traitRemove return the sorted duplicate-free union/difference for any sorted list and any names, without writing the list they were given (loop invariants over sort.Search's contract); vendingpb.updateStock/DispenseInstantly add to used and subtract from remaining floored at zero, each in its own unit, report conversion errors, never dereference an absent quantity; WithConsumablesOption/WithInventoryOption write only their own option list; unitpb.Convert32/Convert round trip within a category and report cross-category pairs; fanspeedpb.DeriveValues leaves preset, index and percentage describing the same preset (or none) for every preset list including the empty one, with precedence preset > index > percentage, and validateUpdate accepts exactly known presets; modepb.relativeAdjustment steps with mathematical wrap-around for every int32 step, NewModelModes keeps its argument; enter/leave totals, meter start/end times and the publication receipt/acknowledge rules hold for every stored value.",
+         "Eleven genuine defects were found and repaired (known_findings.json, 'fixed'). Per-function contracts: the composition through Collection.Update/Value.Set (interceptor order, stored = returned) is C01's contract and is trusted here (NewValue, UpdatePublication, Clock are trusted stubs listed in the evidence). Float arithmetic is real arithmetic without rounding, so unit round trips are exact in the model. relativeAdjustment is proved for requests with at most one relative entry (entries are independent; stated bound). Publication version hashing (md5/fmt) is havocked."),
 }
 
 NOT_APPLICABLE = {
